@@ -99,5 +99,9 @@ func PemToPrivateKey(bytes []byte) (signer crypto.Signer, err error) {
 			signer = k
 		}
 	}
+	if signer == nil && err == nil {
+		// a PEM block of another type, or a PKCS#8 key type that cannot sign (e.g. X25519): callers expect a key or an error
+		err = ErrWrongPrivateKey
+	}
 	return
 }
